@@ -63,3 +63,8 @@ Fixpoint mfor {W X S R} (xs : list X) (s : S) (body : S -> X -> SM W (S + R)) : 
   end.
 (* LIST * int *)
 Definition py_list_mul {A} (l : list A) (n : Z) : list A := concat (repeat l (Z.to_nat n)).
+(* ndarray.tolist() *)
+Definition py_tolist {A} (l : list A) : list A := l.
+(* `atol if atol else Settings.get_atol()`: None and 0.0 are falsy *)
+Definition eff_atol (F : OF) (default : F) (a : option F) : F :=
+  match a with Some x => if (kleb F x (c0 F) && kleb F (c0 F) x)%bool then default else x | None => default end.
